@@ -331,6 +331,36 @@ Section StepMonitors.
     | DPhase _ _ _, None => is_nil evs
     | _, _ => true
     end.
+  (** C11 for the same-cluster ObjectSetPhase controller: a namespaced ObjectSetPhase never has a member request
+      outside its namespace or on a cluster-scoped kind. *)
+  Definition m_nsbound : bool :=
+    match ds_step o, ds_pre_phase o with
+    | DPhase _ _ _, Some p =>
+        negb (oi_kind (op_id p) =? KObjectSetPhase) ||
+        forallb (fun e => match e with
+                          | SMember x => (k_ns (ev_key x) =? oi_ns (op_id p)) &&
+                                         match gk_scope (k_gk (ev_key x)) with Some true => true | _ => false end
+                          | _ => true end) evs
+    | _, _ => true
+    end.
+  (** C11 "violations surface as Available=False/PreflightError": a pass of the same-cluster ObjectSetPhase
+      controller on a live, unpaused phase object of its class, carrying the finalizer, that lists an object
+      violating preflight sends no member request and reports Available=False / PreflightError. *)
+  Definition m_preflight_reported : bool :=
+    match ds_step o, ds_pre_phase o with
+    | DPhase k _ _, Some p =>
+        let f := if k =? KClusterObjectSetPhase then FSameClusterPhase else FSamePhase in
+        negb (op_class p =? DefaultClass) || op_deleting p || negb (op_fin p) ||
+        negb (existsb (fun x => negb (is_nil (preflight_obj f (phase_owner p) false x))) (op_objects p)) ||
+        (forallb (fun e => match e with SMember _ => false | _ => true end) evs &&
+         existsb (fun e => match e with
+                           | SPhase (PStatus _ cs _ _) =>
+                               match find_cond cs CAvailable with
+                               | Some cd => cstatus_eqb (cd_status cd) SFalse && creason_eqb (cd_reason cd) RPreflightError
+                               | None => false end
+                           | _ => false end) evs)
+    | _, _ => true
+    end.
 End StepMonitors.
 
 Definition all_steps (m : dobs -> bool) (c : drun) : bool := forallb m (dr_steps c).
@@ -414,7 +444,7 @@ Definition m_final (c : drun) : bool :=
             (delegated s)) (dr_sets' c).
 
 Definition monitor_run (c : drun) : bool :=
-  all_steps m_carries c && all_steps m_relay c && all_steps m_gate c && all_steps m_teardown c && all_steps m_class c && m_final c.
+  all_steps m_carries c && all_steps m_relay c && all_steps m_gate c && all_steps m_teardown c && all_steps m_class c && (dr_annot c || (all_steps m_nsbound c && all_steps m_preflight_reported c)) && m_final c.
 
 (** The clause the implementation violates (known finding): kept apart from the rest of the monitor. *)
 Definition monitor_own (c : drun) : bool := all_steps m_own c.
@@ -433,7 +463,7 @@ Definition judge_parts (c : tcase) : list bool :=
   let d := tc_d c in
   let '(t1, t2, t3) := m_twin_parts c in
   [agree d; match tc_l c with Some l => agree l | None => true end;
-   all_steps m_carries d; all_steps m_relay d; all_steps m_gate d; all_steps m_teardown d; all_steps m_class d; m_final d;
+   all_steps m_carries d; all_steps m_relay d; all_steps m_gate d; all_steps m_teardown d; all_steps m_class d && (dr_annot d || (all_steps m_nsbound d && all_steps m_preflight_reported d)); m_final d;
    t1; t2; t3; monitor_own d].
 
 (** * The monitors accept the model (the parts that do not depend on a whole run) *)
